@@ -18,6 +18,12 @@ Cases ==
     \cup {With(Ctx(k), {OptSeq40[i], OptSeq40[i + 1]}, SecondV) : i \in 1..(Len(OptSeq40) - 1)}
     \cup {With(Ctx(k), Optional("4.0"), SecondV), With(Ctx(k), Optional("4.0"), LastV)}
     \cup {With(Ctx(k), RndSet(j), LastV) : j \in 1..K}
+    \* every pair of (environmental / threat metric, value) - in the first context only
+    \cup (IF k = 1
+          THEN UNION {UNION {UNION {{[Ctx(k) EXCEPT ![m1] = v1, ![m2] = v2]
+                                       : v2 \in Values("4.0", m2) \ {"X"}} : v1 \in Values("4.0", m1) \ {"X"}}
+                               : m2 \in (EnvSet40 \cup {"E"}) \ {m1}} : m1 \in EnvSet40 \cup {"E"}}
+          ELSE {})
     \cup {With(RndObj("4.0", j), SuppSet40, LastV) : j \in 1..K} \cup {RndObj("4.0", j) : j \in 1..K}
     \cup {SparseObj("4.0", j) : j \in 1..K}
   : k \in 1..3}
